@@ -408,7 +408,7 @@ func rdpMutate(r Rand, msg []byte, _ bool) []byte {
 		p := rdpParts{routing: []byte("x\r\r\n")}
 		out = p.bytes()
 	case 6: // cookie without CR LF
-		if crlf >= 0 {
+		if crlf >= 11 {
 			p := rdpParts{routing: out[11:crlf], negReq: rdpNegReq(0, 1)}
 			out = p.bytes()
 		}
@@ -577,7 +577,7 @@ func winboxMutate(r Rand, msg []byte, _ bool) []byte {
 			out[1] = pick[byte](r, "winbox.type", 0, 5, 7, 0xFF)
 		}
 	case 4: // parity
-		out[len(out)-1] = pick[byte](r, "winbox.parity", 2, 0x80, 0xff)
+		setByte(out, len(out)-1, pick[byte](r, "winbox.parity", 2, 0x80, 0xff))
 	case 5: // public key one byte short / long
 		user := "admin"
 		k := key
@@ -650,6 +650,9 @@ func protoWireGuard() *Proto {
 		},
 		Mutate: func(r Rand, msg []byte, _ bool) []byte {
 			out := clone(msg)
+			if len(out) < 4 {
+				return GenericMutate(r, msg)
+			}
 			switch choose(r, 8, "wg.mut") {
 			case 0: // message type
 				out[0] = pick[byte](r, "wg.type", 0, 1, 2, 3, 4, 5, 0xff)
